@@ -247,7 +247,9 @@ def sample(alts, r, depth=0):
 def sample_node(n, r, depth):
     k = n[0]
     if k == "ch": return bytes([n[1]])
-    if k == "dot": return bytes([r.choice([c for c in ALPHA if c != 0x0A])])
+    if k == "dot":
+        # the boundary values of the wildcard (atoms spanning a `.` are expanded 00..FF) come up often
+        return bytes([r.choice([0x00, 0xFF, 0xFF, 0x01, 0xFE]) if r.random() < 0.35 else r.choice([c for c in ALPHA if c != 0x0A])])
     if k == "esc":
         f = {"w": is_word, "s": is_space, "d": is_digit}[n[1].lower()]
         pool = [c for c in ALPHA + SPACES + [0x30, 0x39] if f(c) != n[1].isupper()]
@@ -255,7 +257,9 @@ def sample_node(n, r, depth):
     if k == "cls":
         bm = cls_bitmap(n[1])
         pool = [c for c in ALPHA + list(range(256)) if bool(bm >> c & 1) != n[2]]
-        return bytes([pool[0] if r.random() < 0.5 else r.choice(pool[:40])]) if pool else b""
+        if not pool: return b""
+        u = r.random()
+        return bytes([pool[0] if u < 0.35 else max(pool) if u < 0.5 else min(pool) if u < 0.6 else r.choice(pool[:40])])
     if k == "grp": return sample(n[1], r, depth + 1)
     if k == "rep":
         lo = n[3]; hi = n[4] if n[4] is not None else lo + 3
@@ -479,7 +483,7 @@ CORPUS = [
     ("/^(a{,2}?){4,4}?/", "", "a", b"Aaaaaaa", "C(^,Rl4,4(Rl0,2(l61)))"),
     ("/(a{0})+b/", "", "a", b"ab", "C(+g(Rg0,0(l61)),l62)"), ("/x(a?b)+c/", "", "a", b"xabbc xbabc"),
     ("/[0-0]/", "wide fullword", "wf", b"a\x000\x00"), ("/[0-0]/", "wide fullword", "wf", b"a0\x00"), ("/[0-0]x*/", "wide fullword", "wf", b"0\x00a\x00"),
-    ("/x.abc.y/", "", "a", b"--x1abc2y--abc"), ("/x(aa|a){4,6}y/", "", "a", b"xaaaay xaaay"), ("/x[a-f\\W]y/", "", "a", b"xay x-y xgy"),
+    ("/x.abc.y/", "", "a", b"--x1abc2y--abc"), ("/ab.d/", "", "a", b"ab\xffd ab\x00d abcd"), ("/ab[^c]d/", "", "a", b"ab\xffd ab\x00d abcd"), ("/x(aa|a){4,6}y/", "", "a", b"xaaaay xaaay"), ("/x[a-f\\W]y/", "", "a", b"xay x-y xgy"),
     ("/x[\\Wa-f]y/", "", "a", b"xay x-y xgy"), ("/x[^\\da-c]y/", "", "a", b"xay x1y xdy"),
     ("/[^a-c]x/i", "", "ai", b"Ax dx Dx"), ("/a.c/s", "wide", "ws", b"a\0\n\0c\0a\0b\0c\0"), ("/(a*)*b/", "", "a", b"aaab"), ("/(a|)*b/", "", "a", b"aab"),
 ]
